@@ -38,10 +38,11 @@ fn stub_format(_a: core::fmt::Arguments<'_>) -> String {
 #[kani::unwind(5)]
 #[kani::stub(alloc::fmt::format, stub_format)]
 fn canonicalize_vertices_contract() {
-    let u1 = uuid::Uuid::from_u128(kani::any());
-    let u2 = uuid::Uuid::from_u128(kani::any());
+    // concrete, distinct UUIDs (identity is what matters; symbolic 128-bit values only cost time)
+    let u1 = uuid::Uuid::from_u128(0x1111_2222_3333_4444_5555_6666_7777_8888);
+    let u2 = uuid::Uuid::from_u128(0x9999_aaaa_bbbb_cccc_dddd_eeee_ffff_0001);
     let (d1, d2): (Option<u8>, Option<u8>) = (if kani::any() { Some(kani::any()) } else { None }, if kani::any() { Some(kani::any()) } else { None });
-    let c: [f64; 4] = kani::any();
+    let c: [f64; 4] = [kani::any(), 0.25, kani::any(), 0.75];
     let input = [
         Vertex::<f64, u8, 2>::new_with_uuid(Point::new([c[0], c[1]]), u1, d1),
         Vertex::<f64, u8, 2>::new_with_uuid(Point::new([c[2], c[3]]), u2, d2),
@@ -66,5 +67,57 @@ fn canonicalize_vertices_contract() {
     }
     kani::cover!(r.is_ok(), "COV ok");
     kani::cover!(r.is_err() && fail_at == 1, "COV second vertex refused");
+    core::mem::forget(r);
+}
+
+// one-vertex instance (quick tier): identity kept, coordinates come from the model, errors propagate
+#[kani::proof]
+#[kani::unwind(4)]
+#[kani::stub(alloc::fmt::format, stub_format)]
+fn canonicalize_one_vertex_contract() {
+    let u1 = uuid::Uuid::from_u128(0x1111_2222_3333_4444_5555_6666_7777_8888);
+    let d1: Option<u8> = if kani::any() { Some(kani::any()) } else { None };
+    let x: f64 = kani::any();
+    let input = [Vertex::<f64, u8, 2>::new_with_uuid(Point::new([x, 0.25]), u1, d1)];
+    CALLS.store(0, AOrd::Relaxed);
+    let refuse: bool = kani::any();
+    FAIL_AT.store(if refuse { 0 } else { u64::MAX }, AOrd::Relaxed);
+    let r = DelaunayTriangulationBuilder::<f64, u8, 2>::canonicalize_vertices(&input, &AnyModel::<2> { domain: kani::any() });
+    match &r {
+        Ok(out) => {
+            assert!(!refuse, "OBL err-propagates: a model error is never swallowed");
+            assert!(out.len() == 1, "OBL same-length: one output vertex per input vertex");
+            assert!(out[0].uuid().as_u128() == u1.as_u128() && out[0].data == d1, "OBL identity-kept: UUID and user data are kept");
+            assert!(out[0].point().coords()[0] == 1000.0, "OBL coords-from-model: the vertex carries the coordinates its canonicalisation produced (every vertex goes through the model)");
+            assert!(out[0].point().coords()[1] == 0.25, "OBL untouched-axes: coordinates the model left alone are unchanged");
+        }
+        Err(_) => assert!(refuse && CALLS.load(AOrd::Relaxed) == 1, "OBL err-only-from-model: Err only if the model refused the vertex"),
+    }
+    kani::cover!(r.is_ok(), "COV ok");
+    kani::cover!(r.is_err(), "COV refused");
+    core::mem::forget(r);
+}
+
+// quick-tier instance: the model never refuses (the Err plumbing is covered by the thorough units)
+#[kani::proof]
+#[kani::unwind(4)]
+#[kani::stub(alloc::fmt::format, stub_format)]
+fn canonicalize_one_vertex_ok_contract() {
+    let u1 = uuid::Uuid::from_u128(0x1111_2222_3333_4444_5555_6666_7777_8888);
+    let d1: Option<u8> = if kani::any() { Some(kani::any()) } else { None };
+    let x: f64 = kani::any();
+    let input = [Vertex::<f64, u8, 2>::new_with_uuid(Point::new([x, 0.25]), u1, d1)];
+    CALLS.store(0, AOrd::Relaxed);
+    FAIL_AT.store(u64::MAX, AOrd::Relaxed);
+    let r = DelaunayTriangulationBuilder::<f64, u8, 2>::canonicalize_vertices(&input, &AnyModel::<2> { domain: kani::any() });
+    match &r {
+        Ok(out) => {
+            assert!(out.len() == 1, "OBL same-length: one output vertex per input vertex");
+            assert!(out[0].uuid().as_u128() == u1.as_u128() && out[0].data == d1, "OBL identity-kept: UUID and user data are kept");
+            assert!(out[0].point().coords()[0] == 1000.0, "OBL coords-from-model: the vertex carries the coordinates its canonicalisation produced (every vertex goes through the model, whatever its position relative to the periodic domain)");
+            assert!(out[0].point().coords()[1] == 0.25, "OBL untouched-axes: coordinates the model left alone are unchanged");
+        }
+        Err(_) => assert!(false, "OBL no-spurious-err: no Err when the model accepts the vertex"),
+    }
     core::mem::forget(r);
 }
